@@ -106,6 +106,8 @@ struct Inst {
     std::vector<std::pair<double, double>> tb_calls; // (t_before, t_after) of accepted consuming calls since configuration
     uint64_t sent = 0, recv = 0;
     int handler_invocations = 0;
+    int ps_delivered = 0, ps_invocations = 0; std::set<const void *> ps_senders; // C08 classification
+    bool c17_deep = false, c17_changed = false;
     bool deny_ctx() const;
 };
 
